@@ -129,8 +129,8 @@ def run(ctx):
         found = []
         for t, d, rb in b.return_values():
             t = strip(t)
-            gs = [(strip(g), opw.truth(k)) for g, k, sw in b.guard_terms(d[1])]
-            dof5 = [v for g, v in gs if isinstance(g, tuple) and g[0] == 'bin' and g[1] == 'Eq' and 'dof' in show(g[2], maxdepth=4) and util.const_val(g[3]) == 5]
+            ev = [util.edge_value(g, k) for g, k, sw in b.guard_terms(d[1])]
+            dof5 = [True for e in ev if e is not None and e[1] == 5 and 'dof' in show(e[0], maxdepth=4)]
             if dof5 == [True]:
                 found.append(show(t, maxdepth=3))
                 if isinstance(t, tuple) and t[0] == 'call' and t[1] == methods[target].path and util.is_param(t[2], 1) and util.is_param(t[3], 2):
@@ -187,7 +187,8 @@ def _suppress(ctx, b, key, pred):
             iv = util.const_val(b.term_local(e['local'], (i, j))) if e['k'] == 'index' else e['off']
             val = util.const_val(b.rv_term(st['rv'], (i, j)))
             gs = [(strip(g), opw.truth(k)) for g, k, sw in b.guard_terms(i)]
-            cond = [v for g, v in gs if isinstance(g, tuple) and g[0] == 'bin' and g[1] == 'Eq' and util.const_val(g[3]) == 5 and 'dof' in show(g, maxdepth=8).lower()]
+            ev = [util.edge_value(g, k) for g, k, sw in b.guard_terms(i)]
+            cond = [True for e in ev if e is not None and e[1] == 5 and 'dof' in show(e[0], maxdepth=8).lower()]
             found = 'sign[%s] = %s under %s' % (iv, val, [show(g, maxdepth=4) for g, v in gs][-2:])
             if iv == 5 and val == 0 and cond == [True]:
                 ok = True
